@@ -98,6 +98,17 @@ def v_sub(a, b):
     return v_add(a, v_neg(b))
 
 
+_gen_key_cache = {}
+
+
+def _gen_key(item):
+    g = item[0]
+    k = _gen_key_cache.get(g)
+    if k is None:
+        k = _gen_key_cache[g] = repr(g)
+    return k
+
+
 def _mono_mul(m1, m2):
     if not m1:
         return m2
@@ -106,7 +117,8 @@ def _mono_mul(m1, m2):
     d = dict(m1)
     for g, p in m2:
         d[g] = d.get(g, 0) + p
-    return tuple(sorted(d.items()))
+    # atom ids are heterogeneous tuples (('const', c) vs (iteration, site, ...)): order by their printed form
+    return tuple(sorted(d.items(), key=_gen_key))
 
 
 MAX_TERMS = 4000
